@@ -84,6 +84,14 @@ def reader_harness(L, sw, ch, sr, K, overlap, limit, record, srckind="bytes", fr
                         kw.pop(k_)
                 iostub.install(L, fs, stdin_data=data if srckind == "stdin" else None)
             r = util.AudioReader(inp, **kw)
+            if srckind in ("bytes", "source") and e.choose(2):
+                # an impatient caller: one read before open() (normally an error; whatever it does is not judged), then the
+                # normal use, which must be unaffected
+                meta["early"] = True
+                try:
+                    r.read()
+                except Exception:
+                    pass
             r.open()
         except Exception as ex:
             return now(e, "constructor raised %s: %s" % (type(ex).__name__, str(ex)[:60]), syms, meta)
@@ -316,6 +324,12 @@ def replay_fn(c):
                     w.setnchannels(ch)
                     w.writeframes(data)
                 r = ak.AudioReader(p, large_file=True, **kw)
+        if c.get("early"):
+            desc += ", one read() before open()"
+            try:
+                r.read()
+            except Exception:
+                pass
         r.open()
         if (r.block_size, r.hop_size) != (B, H):
             return [("C10: block_size/hop_size attributes wrong", desc + ": block_size=%s hop_size=%s" % (r.block_size, r.hop_size))]
